@@ -1,5 +1,6 @@
 //! C08: Gate / Link / DirectLink (src/comms.rs). Same case grammar as
-//! oracle/eng_c08.ml.
+//! oracle/eng_c08.ml. Also the gate part of C15 (GateMetrics num_updates /
+//! num_dropped_updates: the `M` op and the final `m=` token).
 //!
 //! A case is a *schedule*: a sequence of ops, each executed on a paused-clock
 //! `current_thread` tokio runtime and followed by "settling" (all tasks run
@@ -7,23 +8,31 @@
 //! clock, which only fires when the runtime is otherwise idle). Publishers'
 //! `update_data` calls are spawned tasks, so an update can be *in flight*
 //! (blocked on a full queue link) while links subscribe / unsubscribe /
-//! suspend and clones replay their `Follow*` commands late.
+//! suspend and clones replay their `Follow*` commands late. The root gate runs
+//! `process()` in a standing task; when a clone that does not run `process()`
+//! has 16 commands pending (COMMAND_QUEUE_LEN) the root WAITS inside
+//! `notify_clones` and gets to nothing else until that clone takes a command
+//! off its queue or is dropped (back-pressure): a `connect()` stays in flight
+//! (`c:blk`), a Terminate is acted on late (`T:blk` / `Z:blk`).
 //!
 //! ops (separated by ';'):
 //!   Q k   queue capacity of the gate (first op only; default 2)
 //!   c l   link l connects            (even l: queue link, odd l: direct link)
 //!   d l   link l disconnects         s l  suspends      r l  resumes (hook)
+//!   t l   direct link l: the component drops its direct-update target, the link stays subscribed
 //!   q l   queue link l: one query()
 //!   k     clone the root gate        x c  drop clone c  (c >= 1)
 //!   F c   clone c: ONE process() call (returns at a status change)
 //!   D c   clone c: process() until its command queue is empty
 //!   u p   publisher p (0 = root gate, c = clone c) starts update_data(next seq)
-//!   T     agent.terminate(), root processes it and is dropped
-//!   Z     agent.terminate(), root processes it but the gate object stays alive (unit busy exiting);
+//!   M     read GateMetrics now: M:<num_updates>/<num_dropped_updates>
+//!   T     agent.terminate(); the harness lets go of the root gate (it is dropped when process() has returned)
+//!   Z     agent.terminate(), the gate object stays alive (unit busy exiting);
 //!         link ops are skipped until the gate is dropped
-//!   X     root gate dropped (without Terminate, or after Z)
-//! After every link / clone / terminate op the root gate processes its
-//! command queue until it is empty.
+//!   X     the unit's task is cancelled and the root gate dropped (without Terminate, or after Z)
+//! Link ops and `k` are skipped while commands are waiting in the root's queue
+//! (`GateAgent::verif_pending_commands`, read after settling): the root is not
+//! getting to them, and the queue (16) must not fill up.
 use crate::util::ops;
 use rotonda::comms::{AnyDirectUpdate, DirectLink, DirectUpdate, Gate, GateAgent, Link, Terminated, UnitStatus};
 use rotonda::payload::Update;
@@ -35,7 +44,6 @@ use std::time::Duration;
 
 pub const NLINKS: usize = 6;
 const MAXCLONES: usize = 6;
-const CLONE_LAG_LIMIT: usize = 12;
 
 // an update carries (publisher, sequence number)
 fn enc(p: u32, n: u32) -> Update { Update::WithdrawBulk([p, n].into_iter().collect()) }
@@ -43,8 +51,11 @@ fn dec(u: &Update) -> (u32, u32) {
     match u { Update::WithdrawBulk(v) if v.len() == 2 => (v[0], v[1]), _ => (u32::MAX, u32::MAX) }
 }
 
+type Log = Arc<Mutex<Vec<(u32, u32)>>>;
+
+/// a direct-update target; its log outlives it (the target can be dropped, op `t`)
 #[derive(Debug, Default)]
-pub struct Tgt { pub log: Mutex<Vec<(u32, u32)>> }
+pub struct Tgt { pub log: Log }
 impl DirectUpdate for Tgt {
     fn direct_update<'a, 'b>(&'a self, update: Update) -> Pin<Box<dyn Future<Output = ()> + Send + 'b>>
     where 'a: 'b, Self: 'b {
@@ -54,10 +65,13 @@ impl DirectUpdate for Tgt {
 impl AnyDirectUpdate for Tgt {}
 
 enum LK { Q(Link), D(DirectLink) }
-struct L { lk: LK, tgt: Arc<Tgt>, conn: bool, susp: bool, gone: bool, log: Vec<(u32, u32)> }
-struct P { gate: Option<Arc<Gate>>, next: u32, busy: Option<Arc<AtomicBool>>, term: bool, lag: usize }
+type ConnTask = tokio::task::JoinHandle<(LK, Result<(), UnitStatus>)>;
+struct L { lk: Option<LK>, direct: bool, tgt: Option<Arc<Tgt>>, dlog: Log, pending: Option<ConnTask>,
+           conn: bool, susp: bool, gone: bool, log: Vec<(u32, u32)> }
+struct P { gate: Option<Arc<Gate>>, next: u32, busy: Option<Arc<AtomicBool>>, term: bool }
 
-struct St { root_term: Arc<AtomicBool>, root_task: Option<tokio::task::JoinHandle<()>>, agent: GateAgent, links: Vec<L>, pubs: Vec<P>, out: Vec<String> }
+struct St { root_done: Arc<AtomicBool>, root_task: Option<tokio::task::JoinHandle<()>>, term_req: bool, aborted: bool,
+            agent: GateAgent, links: Vec<L>, pubs: Vec<P>, out: Vec<String> }
 
 async fn settle() { tokio::time::sleep(Duration::from_millis(1)).await }
 
@@ -67,87 +81,88 @@ fn idle(p: &mut P) -> bool {
 }
 
 impl St {
-    fn root(&self) -> Option<Arc<Gate>> { if self.root_term.load(SeqCst) { None } else { self.pubs[0].gate.clone() } }
+    /// the harness still holds the root Gate object
+    fn root_handle(&self) -> bool { self.pubs[0].gate.is_some() }
 
-    /// Terminate handled, gate object not yet dropped: nobody serves the command queue
-    fn zombie(&self) -> bool { self.root_term.load(SeqCst) && self.pubs[0].gate.is_some() }
+    /// the root Gate object is gone: the harness let go of it and the unit's task is over
+    fn root_gone(&self) -> bool { !self.root_handle() && (self.aborted || self.root_done.load(SeqCst)) }
 
-    /// The root gate runs `process()` in a standing task (never cancelled mid-command), so it
-    /// handles every command as soon as the runtime gets to it; draining = settling.
-    async fn root_drain(&mut self) { settle().await }
+    /// Terminate was requested and the gate object still exists
+    fn closing(&self) -> bool { self.term_req && !self.root_gone() }
+
+    /// commands the root has not got to
+    fn stuck(&self) -> bool { !self.root_gone() && self.agent.verif_pending_commands() > 0 }
+
+    /// Settling; then pick up every connect() that has come back meanwhile.
+    async fn root_drain(&mut self) {
+        settle().await;
+        for l in 0..NLINKS {
+            if self.links[l].pending.as_ref().map(|t| t.is_finished()).unwrap_or(false) {
+                let t = self.links[l].pending.take().unwrap();
+                let (lk, r) = t.await.expect("connect task");
+                self.links[l].lk = Some(lk);
+                match r {
+                    Ok(()) => { self.links[l].conn = true; self.links[l].susp = false; }
+                    Err(_) => { self.links[l].gone = true; }
+                }
+            }
+        }
+    }
 
     async fn clone_process(&mut self, c: usize, all: bool) -> &'static str {
         let g = match &self.pubs[c] { P { gate: Some(g), term: false, .. } => g.clone(), _ => return "skip" };
-        loop {
+        let res = loop {
             let r = tokio::select! { biased;
                 r = g.process() => Some(r),
                 _ = settle() => None,
             };
             match r {
-                None => { if all { self.pubs[c].lag = 0; } return "idle" }
-                Some(Err(Terminated)) => { self.pubs[c].term = true; return "term" }
-                Some(Ok(_)) => { if !all { return "ok" } }
+                None => break "idle",
+                Some(Err(Terminated)) => { self.pubs[c].term = true; break "term" }
+                Some(Ok(_)) => { if !all { break "ok" } }
             }
-        }
-    }
-
-    /// keeps every clone's command queue well below its capacity (16), so that the root never
-    /// blocks inside notify_clones (both engines do the same bookkeeping)
-    async fn lag_guard(&mut self) {
-        for c in 1..self.pubs.len() {
-            if self.pubs[c].gate.is_some() && !self.pubs[c].term && self.pubs[c].lag >= CLONE_LAG_LIMIT {
-                self.clone_process(c, true).await;
-            }
-        }
-    }
-    fn notified(&mut self) {
-        if self.root().is_none() { return }
-        for c in 1..self.pubs.len() { if self.pubs[c].gate.is_some() { self.pubs[c].lag += 1; } }
+        };
+        drop(g);
+        self.root_drain().await;
+        res
     }
 
     async fn connect(&mut self, l: usize) -> &'static str {
-        if self.links[l].conn || self.zombie() { return "skip" }
+        if self.links[l].conn || self.links[l].pending.is_some() || self.closing() || self.stuck() { return "skip" }
         if self.links[l].gone { return "gone" }
-        self.lag_guard().await;
-        self.notified();
-        let res = {
-            let lk = &mut self.links[l];
-            let tgt: Arc<dyn AnyDirectUpdate> = lk.tgt.clone();
-            let fut: Pin<Box<dyn Future<Output = Result<(), UnitStatus>> + '_>> = match &mut lk.lk {
-                LK::Q(link) => Box::pin(link.connect(false)),
-                LK::D(dl) => Box::pin(dl.connect(tgt, false)),
-            };
-            tokio::pin!(fut);
-            tokio::select! { biased; r = &mut fut => Some(r), _ = settle() => None }
-        };
-        let r = match res {
-            Some(Ok(())) => { self.links[l].conn = true; self.links[l].susp = false; "ok" }
-            Some(Err(_)) => { self.links[l].gone = true; "gone" }
-            None => "hang",
-        };
+        let lk = self.links[l].lk.take().unwrap();
+        if self.links[l].direct && self.links[l].tgt.is_none() {
+            self.links[l].tgt = Some(Arc::new(Tgt { log: self.links[l].dlog.clone() }));
+        }
+        let tgt: Option<Arc<dyn AnyDirectUpdate>> = self.links[l].tgt.clone().map(|t| t as Arc<dyn AnyDirectUpdate>);
+        // the connect() call lives in a task of its own: it stays in flight while the gate does not answer
+        self.links[l].pending = Some(tokio::spawn(async move {
+            match lk {
+                LK::Q(mut link) => { let r = link.connect(false).await; (LK::Q(link), r) }
+                LK::D(mut dl) => { let r = dl.connect(tgt.unwrap(), false).await; (LK::D(dl), r) }
+            }
+        }));
         self.root_drain().await;
-        r
+        if self.links[l].pending.is_some() { "blk" } else if self.links[l].conn { "ok" } else { "gone" }
     }
 
     async fn link_cmd(&mut self, l: usize, what: &str) -> &'static str {
-        if !self.links[l].conn || self.zombie() { return "skip" }
+        if !self.links[l].conn || self.closing() || self.stuck() { return "skip" }
         if what == "s" && self.links[l].susp { return "skip" }
         if what == "r" && !self.links[l].susp { return "skip" }
-        self.lag_guard().await;
-        if what == "d" { self.notified(); }
         let lk = &mut self.links[l];
         match what {
             "d" => {
-                match &mut lk.lk { LK::Q(link) => link.disconnect().await, LK::D(dl) => dl.disconnect().await }
+                match lk.lk.as_mut().unwrap() { LK::Q(link) => link.disconnect().await, LK::D(dl) => dl.disconnect().await }
                 lk.conn = false;
                 lk.susp = false;
             }
             "s" => {
-                match &mut lk.lk { LK::Q(link) => link.suspend().await, LK::D(dl) => dl.suspend().await }
+                match lk.lk.as_mut().unwrap() { LK::Q(link) => link.suspend().await, LK::D(dl) => dl.suspend().await }
                 lk.susp = true;
             }
             _ => {
-                match &mut lk.lk { LK::Q(link) => link.verif_resume().await, LK::D(dl) => dl.verif_resume().await }
+                match lk.lk.as_mut().unwrap() { LK::Q(link) => link.verif_resume().await, LK::D(dl) => dl.verif_resume().await }
                 lk.susp = false;
             }
         }
@@ -155,10 +170,19 @@ impl St {
         "ok"
     }
 
+    async fn target_drop(&mut self, l: usize) -> &'static str {
+        let lk = &mut self.links[l];
+        if !lk.direct || lk.tgt.is_none() || lk.pending.is_some() { return "skip" }
+        let t = lk.tgt.take().unwrap();
+        drop(Arc::try_unwrap(t).expect("direct-update target still shared"));
+        settle().await;
+        "ok"
+    }
+
     async fn query(&mut self, l: usize) -> String {
         let lk = &mut self.links[l];
         if !lk.conn || lk.gone { return "skip".into() }
-        let r = match &mut lk.lk {
+        let r = match lk.lk.as_mut().unwrap() {
             LK::D(_) => return "skip".into(),
             LK::Q(link) => tokio::select! { biased; r = link.query() => Some(r), _ = settle() => None },
         };
@@ -205,13 +229,14 @@ pub fn run_case(line: &str) -> String {
     let metrics = gate.metrics();
     let links = (0..NLINKS).map(|l| {
         let link = agent.create_link();
-        L { lk: if l % 2 == 0 { LK::Q(link) } else { LK::D(DirectLink::from(link)) }, tgt: Arc::new(Tgt::default()),
-            conn: false, susp: false, gone: false, log: vec![] }
+        let direct = l % 2 == 1;
+        L { lk: Some(if direct { LK::D(DirectLink::from(link)) } else { LK::Q(link) }), direct, tgt: None, dlog: Log::default(),
+            pending: None, conn: false, susp: false, gone: false, log: vec![] }
     }).collect();
     let gate = Arc::new(gate);
-    let root_term = Arc::new(AtomicBool::new(false));
+    let root_done = Arc::new(AtomicBool::new(false));
     let root_task = {
-        let (g, flag) = (gate.clone(), root_term.clone());
+        let (g, flag) = (gate.clone(), root_done.clone());
         let _e = rt.enter();
         // "run" the gate like a unit does; the unit exits when process() says Terminated
         tokio::spawn(async move {
@@ -220,30 +245,29 @@ pub fn run_case(line: &str) -> String {
             flag.store(true, SeqCst);
         })
     };
-    let mut st = St { root_term, root_task: Some(root_task), agent, links, out: vec![],
-                      pubs: vec![P { gate: Some(gate), next: 0, busy: None, term: false, lag: 0 }] };
+    let mut st = St { root_done, root_task: Some(root_task), term_req: false, aborted: false, agent, links, out: vec![],
+                      pubs: vec![P { gate: Some(gate), next: 0, busy: None, term: false }] };
     let num = |o: &Vec<&str>| o.get(1).and_then(|t| t.parse::<usize>().ok()).unwrap_or(0);
     for o in &ops {
         let tok: String = match o[0] {
             "Q" => "Q".into(),
             "c" if num(o) < NLINKS => format!("c:{}", rt.block_on(st.connect(num(o)))),
             "d" | "s" | "r" if num(o) < NLINKS => format!("{}:{}", o[0], rt.block_on(st.link_cmd(num(o), o[0]))),
+            "t" if num(o) < NLINKS => format!("t:{}", rt.block_on(st.target_drop(num(o)))),
             "q" if num(o) < NLINKS => format!("q:{}", rt.block_on(st.query(num(o)))),
             "u" => format!("u:{}", rt.block_on(st.update(num(o)))),
+            "M" => format!("M:{}/{}", metrics.num_updates.load(SeqCst), metrics.num_dropped_updates.load(SeqCst)),
             "k" => {
-                if st.root().is_none() || st.pubs.len() > MAXCLONES { "k:skip".into() } else {
-                    let g = rt.block_on(async { let g = st.pubs[0].gate.as_ref().unwrap().as_ref().clone(); settle().await; g });
-                    st.pubs.push(P { gate: Some(Arc::new(g)), next: 0, busy: None, term: false, lag: 0 });
+                if !st.root_handle() || st.term_req || st.stuck() || st.pubs.len() > MAXCLONES { "k:skip".into() } else {
+                    let g = rt.block_on(async { let g = st.pubs[0].gate.as_ref().unwrap().as_ref().clone(); st.root_drain().await; g });
+                    st.pubs.push(P { gate: Some(Arc::new(g)), next: 0, busy: None, term: false });
                     format!("k:{}", st.pubs.len() - 1)
                 }
             }
             "x" => {
                 let c = num(o);
                 if c == 0 || c >= st.pubs.len() || st.pubs[c].gate.is_none() || !idle(&mut st.pubs[c]) { "x:skip".into() } else {
-                    // outside the runtime context: Drop for a cloned Gate uses block_in_place inside one
-                    let g = st.pubs[c].gate.take().unwrap();
-                    drop(Arc::try_unwrap(g).expect("clone still shared"));
-                    rt.block_on(st.root_drain());
+                    drop_clone(&rt, &mut st, c);
                     "x:ok".into()
                 }
             }
@@ -252,10 +276,10 @@ pub fn run_case(line: &str) -> String {
                 if c == 0 || c >= st.pubs.len() { format!("{}:skip", o[0]) } else { format!("{}:{}", o[0], rt.block_on(st.clone_process(c, o[0] == "D"))) }
             }
             "T" | "Z" => {
-                if st.root().is_none() || !idle(&mut st.pubs[0]) { format!("{}:skip", o[0]) } else { format!("{}:{}", o[0], stop_root(&rt, &mut st, true, o[0] == "T")) }
+                if !st.root_handle() || st.term_req || !idle(&mut st.pubs[0]) { format!("{}:skip", o[0]) } else { format!("{}:{}", o[0], terminate(&rt, &mut st, o[0] == "T")) }
             }
             "X" => {
-                if st.pubs[0].gate.is_none() || !idle(&mut st.pubs[0]) { "X:skip".into() } else { format!("X:{}", stop_root(&rt, &mut st, false, true)) }
+                if !st.root_handle() || !idle(&mut st.pubs[0]) { "X:skip".into() } else { format!("X:{}", drop_root(&rt, &mut st)) }
             }
             _ => "?".into(),
         };
@@ -270,16 +294,22 @@ pub fn run_case(line: &str) -> String {
         if !progress { break }
     }
     let busy: Vec<String> = (0..st.pubs.len()).filter(|p| !idle(&mut st.pubs[*p])).map(|p| p.to_string()).collect();
-    if st.root().is_some() && busy.is_empty() { stop_root(&rt, &mut st, true, true); }
+    if busy.is_empty() {
+        if st.root_handle() && !st.term_req { terminate(&rt, &mut st, true); }
+        // every clone runs its process() until nothing moves any more
+        for _ in 0..st.pubs.len() {
+            for c in 1..st.pubs.len() { rt.block_on(st.clone_process(c, true)); }
+        }
+    }
     let mut terms = vec![];
     for c in 1..st.pubs.len() {
         if st.pubs[c].gate.is_some() && busy.is_empty() {
-            let r = if st.pubs[c].term { "term" } else { rt.block_on(st.clone_process(c, true)) };
-            terms.push(format!("{}:{}", c, if r == "term" { 1 } else { 0 }));
-            if let Some(g) = st.pubs[c].gate.take() { drop(g); }
+            terms.push(format!("{}:{}", c, if st.pubs[c].term { 1 } else { 0 }));
+            drop_clone(&rt, &mut st, c);
         }
     }
-    if st.pubs[0].gate.is_some() && busy.is_empty() { stop_root(&rt, &mut st, false, true); }
+    let rterm = if st.root_done.load(SeqCst) { 1 } else { 0 };
+    if st.root_handle() && busy.is_empty() { drop_root(&rt, &mut st); }
     let mut gones = vec![];
     for l in (0..NLINKS).step_by(2) {
         if st.links[l].conn && busy.is_empty() {
@@ -291,12 +321,13 @@ pub fn run_case(line: &str) -> String {
     let mut out = st.out.clone();
     out.push("|".into());
     for l in 0..NLINKS {
-        let log = if l % 2 == 0 { st.links[l].log.clone() } else { st.links[l].tgt.log.lock().unwrap().clone() };
+        let log = if l % 2 == 0 { st.links[l].log.clone() } else { st.links[l].dlog.lock().unwrap().clone() };
         out.push(format!("L{}={}", l, show_log(&log)));
     }
     out.push(format!("m={}/{}", metrics.num_updates.load(SeqCst), metrics.num_dropped_updates.load(SeqCst)));
     out.push(format!("busy={}", if busy.is_empty() { "-".into() } else { busy.join(",") }));
     out.push(format!("t={}", if terms.is_empty() { "-".into() } else { terms.join(",") }));
+    out.push(format!("r={}", rterm));
     out.push(format!("g={}", if gones.is_empty() { "-".into() } else { gones.join(",") }));
     // links are dropped inside the runtime context (Drop for a connected Link spawns a task)
     let _g = rt.enter();
@@ -304,24 +335,40 @@ pub fn run_case(line: &str) -> String {
     out.join(" ")
 }
 
-/// terminate: agent.terminate(); the unit task sees Terminated and exits.
-/// drop_gate: the root Gate object is dropped (the unit is gone).
-fn stop_root(rt: &tokio::runtime::Runtime, st: &mut St, terminate: bool, drop_gate: bool) -> &'static str {
-    let was_term = st.root_term.load(SeqCst);
+/// outside the runtime context: Drop for a cloned Gate uses block_in_place inside one
+fn drop_clone(rt: &tokio::runtime::Runtime, st: &mut St, c: usize) {
+    let g = st.pubs[c].gate.take().unwrap();
+    drop(Arc::try_unwrap(g).expect("clone still shared"));
+    rt.block_on(st.root_drain());
+}
+
+/// agent.terminate(); the unit task sees Terminated - at once ("ok"), or later because the root is
+/// waiting inside notify_clones ("blk"). drop_gate: the harness lets go of the root Gate object
+/// (the unit's task holds it until process() has returned).
+fn terminate(rt: &tokio::runtime::Runtime, st: &mut St, drop_gate: bool) -> &'static str {
+    st.term_req = true;
     rt.block_on(async {
-        if terminate {
-            st.lag_guard().await;
-            st.notified();
-            st.agent.terminate().await;
-        } else if let Some(t) = &st.root_task { t.abort(); }
+        st.agent.terminate().await;
+        st.root_drain().await;
+    });
+    let seen = st.root_done.load(SeqCst);
+    if drop_gate {
+        st.pubs[0].gate = None;
+        rt.block_on(st.root_drain());
+    }
+    if !seen { "blk" } else if !drop_gate || st.agent.is_terminated() { "ok" } else { "open" }
+}
+
+/// the unit's task is cancelled (if it still runs) and the root Gate object dropped
+fn drop_root(rt: &tokio::runtime::Runtime, st: &mut St) -> &'static str {
+    rt.block_on(async {
+        if let Some(t) = st.root_task.take() { t.abort(); }
         settle().await;
     });
-    let seen = st.root_term.load(SeqCst);
-    st.root_term.store(true, SeqCst);
-    st.root_task = None;
-    if drop_gate { st.pubs[0].gate = None; }
-    rt.block_on(settle());
-    if terminate && !was_term && !seen { "lost" } else if !drop_gate || st.agent.is_terminated() { "ok" } else { "open" }
+    st.aborted = true;
+    st.pubs[0].gate = None;
+    rt.block_on(st.root_drain());
+    if st.agent.is_terminated() { "ok" } else { "open" }
 }
 
 pub fn special(name: &str, args: &[String]) -> bool {
